@@ -80,6 +80,72 @@ func recompute(x any) (t types.Type, had bool, p *lx.Panic) {
 	return t, true, p
 }
 
+// CalleeSwap checks that the type of a call, invoke or callbr follows its callee: the callee is replaced
+// (through the exported field, then through the operand slot) by a function returning i61, the cached
+// type is dropped and the type is asked for again; everything is restored afterwards. "" = fine or not a
+// call-like instruction.
+func CalleeSwap(x any) string {
+	v := reflect.ValueOf(x)
+	if v.Kind() != reflect.Ptr || v.Elem().Kind() != reflect.Struct {
+		return ""
+	}
+	var cf reflect.Value
+	switch x.(type) {
+	case *ir.InstCall, *ir.TermCallBr:
+		cf = v.Elem().FieldByName("Callee")
+	case *ir.TermInvoke:
+		cf = v.Elem().FieldByName("Invokee")
+	default:
+		return ""
+	}
+	tf := v.Elem().FieldByName("Typ")
+	tv, ok := x.(interface{ Type() types.Type })
+	if !cf.IsValid() || !tf.IsValid() || !ok || cf.IsNil() {
+		return ""
+	}
+	oldCallee := cf.Interface().(value.Value)
+	oldTyp := reflect.New(tf.Type()).Elem()
+	oldTyp.Set(tf)
+	restore := func() {
+		cf.Set(reflect.ValueOf(oldCallee))
+		tf.Set(oldTyp)
+	}
+	defer restore()
+	want := types.NewInt(61)
+	for _, route := range []string{"field", "operand slot"} {
+		other := ir.NewFunc("verif.other", want)
+		if route == "field" {
+			cf.Set(reflect.ValueOf(value.Value(other)))
+		} else {
+			ops, okOps := x.(interface{ Operands() []*value.Value })
+			if !okOps {
+				continue
+			}
+			done := false
+			for _, slot := range ops.Operands() {
+				if *slot == oldCallee {
+					*slot = other
+					done = true
+					break
+				}
+			}
+			if !done {
+				continue
+			}
+		}
+		tf.Set(reflect.Zero(tf.Type()))
+		got, p := typeOf(tv)
+		restore()
+		if p != nil {
+			return fmt.Sprintf("after the callee was replaced through the %s (and the cached type dropped) Type() panics: %v", route, p.Val)
+		}
+		if !types.Equal(got, want) {
+			return fmt.Sprintf("after the callee was replaced through the %s by a function returning %s (and the cached type dropped) the instruction still reports type %s: the type does not follow the callee", route, want, got)
+		}
+	}
+	return ""
+}
+
 // Compare checks every value-producing instruction/terminator of the parsed module pm
 // against the reference types of the abstract module m, and every constant expression for
 // agreement between the parser's cached type and the IR library's own computation.
@@ -155,6 +221,9 @@ func Compare(m *am.Module, pm *ir.Module, onlyGEP bool) (fs []Finding, st Stats)
 				}
 				if ai.Op == "getelementptr" {
 					compareGEPInst(px, want, where, add)
+				}
+				if msg := CalleeSwap(px); msg != "" {
+					add(where, "%s", msg)
 				}
 			}
 		}
@@ -328,6 +397,9 @@ func SelfConsistent(pm *ir.Module, onlyGEP bool) (fs []Finding, st Stats) {
 				}
 				if isGEP {
 					compareGEPInst(px, got, where, add)
+				}
+				if msg := CalleeSwap(px); msg != "" {
+					add(where, "%s", msg)
 				}
 			}
 		}
